@@ -223,6 +223,9 @@ void run_barrier(const Workload& w, Result& res, const char* name) {
                 sim::event(EV_ACTION, g, sim::rt_tid());
                 action_count[size_t(g)]++;
                 total_actions++;
+                // the action runs after everybody has arrived: it sees every participant's pre-barrier write
+                for (int u = 0; u < nt; ++u)
+                    if (slots[size_t(g)][size_t(u)] != 100 * u + g + 1) sim::rt_cell_add(CELL_ERR, 1);
             };
             if ((flags[size_t(t)] >> g) & 1) bp->wait_yield(action); else bp->wait(action);
             sim::event(EV_LEAVE, g, t);
